@@ -91,6 +91,7 @@ def nodupB {α : Type} [BEq α] : List α → Bool
 /-- context-free transaction checks the generated class can fail -/
 def txSane (tx : Tx) : Bool :=
   tx.kind != .registerAsset &&   -- RegisterAssetTransaction.CheckTransactionInput: genesis only (fix bcb6426e)
+  tx.outs.length ≤ 65535 &&      -- CheckTransactionOutput: output indexes are stored as uint16
   !tx.ins.isEmpty && !tx.outs.isEmpty && nodupB tx.ins &&
   tx.outs.all fun o => o.value ≥ 0
 
@@ -223,6 +224,9 @@ structure NState where
   revertStart : Nat := 1000000
   /-- `BlockNode.WorkSum` of every block in the index (id ↦ cumulative work above genesis) -/
   works : List (Nat × Int) := []
+  /-- every block that was ever connected: its block row and data stay in the database when it is
+      disconnected (`RollbackBlock` removes only the hash/height index), so a restart reloads it -/
+  stored : List Block := []
 
 def NState.tip (s : NState) : Block := match s.active with | (b, _) :: _ => b | [] => s.genesis
 def NState.ledger (s : NState) : Ledger := match s.active with | (_, L) :: _ => L | [] => s.gledger
@@ -260,7 +264,8 @@ deriving DecidableEq, Repr
 def connectTip (s : NState) (b : Block) : Option NState :=
   if blockValid s.P s.ledger b then
     let L := applyBlock s.ledger b
-    some { s with active := (b, L) :: s.active, pool := poolOnConnect s.pool b }
+    some { s with active := (b, L) :: s.active, pool := poolOnConnect s.pool b,
+                  stored := if s.stored.any (·.id == b.id) then s.stored else b :: s.stored }
   else none
 
 /-- `disconnectBlock`: pop the tip; its transactions return to the pool -/
@@ -362,11 +367,13 @@ def processBlock (s : NState) (b : Block) : NState × Reply :=
 def submit (s : NState) (tx : Tx) : NState × Bool :=
   ({ s with pool := (poolAdd s.P s.ledger s.tip.height s.pool tx).1 }, (poolAdd s.P s.ledger s.tip.height s.pool tx).2)
 
-/-- a node restart: the active chain and its indexes come back from the database; the side-chain block
-    cache, the orphan pool and the transaction pool are memory only -/
+/-- a node restart: `initChainState` reloads every block row whose block is in the store — the active chain and
+    every block that was connected once (detached branches); side-chain blocks that were never connected, the
+    orphan pool and the transaction pool are memory only -/
 def restart (s : NState) : NState :=
-  { s with known := s.active.map (·.1), orphans := [], pool := [],
-           works := s.works.filter fun w => s.active.any (·.1.id == w.1) }
+  let onDisk := s.active.map (·.1) ++ s.stored.filter fun b => !(s.active.any (·.1.id == b.id))
+  { s with known := onDisk, orphans := [], pool := [],
+           works := s.works.filter fun w => onDisk.any (·.id == w.1) }
 
 def initState (P : Params) (g : Block) : NState :=
   { P := P, genesis := g, known := [], orphans := [], active := [], gledger := applyBlock {} g, pool := [] }
